@@ -169,7 +169,7 @@ def _sweep_case(i, rng, tier):
             probes_v.append(S.ulps(float(e), n))
     probes_v += [float("nan"), float("inf"), float("-inf"), -0.0, 0.0]
     probes_v = [v for v in probes_v if not (isinstance(v, float) and math.isinf(v) and False)]
-    w = rng.choice([1.0, 0.5, 2.0])
+    w = rng.choice([1.0, 0.5, 2.0, 1.0 + 2.0**-18])
     failures = []
     counters = {"sweep_configs": 1, "sweep_kind:" + cfg["k"]: 1}
     wit = {"config": cfg, "weight": w}
